@@ -1,6 +1,8 @@
 SPECIFICATION MCSpec
 CONSTANTS Keys = {1, 2, 3, 4, 5, 6, 7, 8}
+  StaleMode = "poison"
+  BugStaleLinks = FALSE
 VIEW View
-INVARIANTS TypeOK SearchTreeOrder TreeIsAllNodes ListIsInOrder CountOK
+INVARIANTS TypeOK SearchTreeOrder TreeIsAllNodes ListIsInOrder CountOK InsertIgnoresStale
 PROPERTY RefinesDirected
 ACTION_CONSTRAINT Emit
